@@ -152,6 +152,12 @@ fn text_family(o: &mut Out, r: &mut Rng, th: bool) {
             let s = b64(&v);
             o.op(&format!("fromstr.{}.valid", codec), &format!("fromstr {} {}", codec, hex(s.as_bytes())));
             o.op(&format!("tostr.{}", codec), &format!("tostr {} {}", codec, hex(&v)));
+            // a valid object: the typed Display runs too and must print the same text as the Pod form
+            if !codec.starts_with("p-") && codec != "aect" {
+                let v = valid_object(r, codec);
+                o.op(&format!("tostr.{}.valid", codec), &format!("tostr {} {}", codec, hex(&v)));
+                o.op(&format!("fromstr.{}.valid", codec), &format!("fromstr {} {}", codec, hex(b64(&v).as_bytes())));
+            }
             // short / long payloads
             for m in [0usize, 1, n - 1, n + 1, n + 2, n + 3, 2 * n] {
                 let s = b64(&r.bytes(m));
